@@ -71,3 +71,41 @@ def transposeLoopPinned {np ns nt : Nat} (T : CTables np ns nt) (fc : CFC np ns 
   ((loopPairs np ns).foldl (fun s x => blockStepPinned T s x.1 x.2) { fc := fc, done := fun _ _ => false }).fc
 
 end PhononModel
+
+namespace PhononModel
+variable {α : Type} [Add α] [Div α] [OfNat α 2]
+
+/-! ### literal loop of `set_index_permutation_symmetry_fc` (full layout, c/phonopy.c)
+
+    for i: for j = i+1 … : for k,l:  m=(i,j,k,l), n=(j,i,l,k):  fc[m] += fc[n]; fc[m] /= 2; fc[n] = fc[m];
+           for k<2: for l=k+1…:    m=(i,i,k,l), n=(i,i,l,k):  (same three statements)
+-/
+abbrev Idx4 (n : Nat) := Fin n × Fin n × Fin 3 × Fin 3
+
+/-- the index swapped with `x` by index-permutation symmetry -/
+def swapIdx {n : Nat} (x : Idx4 n) : Idx4 n := (x.2.1, x.1, x.2.2.2, x.2.2.1)
+
+/-- `fc[m] += fc[n]; fc[m] /= 2; fc[n] = fc[m];` -/
+def avgStmt {n : Nat} (s : Idx4 n → α) (m : Idx4 n) : Idx4 n → α :=
+  -- (no `let`: the value is only computed for the two entries that are written)
+  fun x => if x = swapIdx m then (s m + s (swapIdx m)) / 2 else if x = m then (s m + s (swapIdx m)) / 2 else s x
+
+/-- the `m` indices in the order the C loops visit them -/
+def permLoopIdx (n : Nat) : List (Idx4 n) :=
+  (List.finRange n).flatMap fun i =>
+    (((List.finRange n).filter fun j => i < j).flatMap fun j =>
+      (List.finRange 3).flatMap fun k => (List.finRange 3).map fun l => (i, j, k, l))
+    ++ (((List.finRange 3).filter fun k => k.1 < 2).flatMap fun k =>
+      ((List.finRange 3).filter fun l => k < l).map fun l => (i, i, k, l))
+
+def permSymLoop {n : Nat} (Φ : FC n α) : FC n α :=
+  let s := (permLoopIdx n).foldl avgStmt (fun x : Idx4 n => Φ x.1 x.2.1 x.2.2.1 x.2.2.2)
+  fun i j k l => s (i, j, k, l)
+
+/-- `phpy_perm_trans_symmetrize_fc` with the permutation step run through the literal loop
+(staged evaluator used by the driver on small cases) -/
+def fullSymLoopF {α : Type} [Add α] [Sub α] [Neg α] [Mul α] [Div α] [OfNat α 0] [OfNat α 2] [NatCast α]
+    (n : Nat) (level : Nat) (A : Frozen4 α) : Frozen4 α :=
+  stage4 (transDiag (n := n)) (iter (fun A => stage4 (permSymLoop (n := n)) (stage4 (rowDrift (m := n) (n := n)) (stage4 (colDrift (n := n)) A))) level A)
+
+end PhononModel
